@@ -1,5 +1,5 @@
 SPECIFICATION Spec
 CONSTANTS
-  Part = "rules"
+  Part = "small"
   Variant = "lists_before_custom"
 INVARIANTS RewriteWinsOutright
